@@ -287,4 +287,89 @@ theorem utxos_refines {s : Store} {L : Ledger} (hg : Good s L) :
         rw [fetchUnmined_good hg ht hv hlk]
         rfl
 
+/-! ### `OutputsToWatch` -/
+
+/-- **`OutputsToWatch` = the ledger's watch set** (every credited output not spent by a confirmed transaction), as a set -/
+theorem watch_refines {s : Store} {L : Ledger} (hg : Good s L) (now : Nat) :
+    ∃ l, outputsToWatch s now = .ok l ∧ (l.map (·.op)).Perm (watchSet L) := by
+  have hr := hg.ref
+  have hl := hg.lwf
+  have hpu := unspent_perm hg
+  have hpc := unminedCredits_perm hg
+  have hA : ∀ e ∈ s.unspent, fetchMinedCredit s now true true false e = .ok (some ⟨e.1, none, 0, false⟩) := by
+    rintro ⟨op, blk⟩ he
+    have hf := find?_of_mem _ hg.wf2.wf.nodupUnspent he
+    obtain ⟨cv, hcv, _⟩ := (hg.wf2.wf.index op blk).mp hf
+    obtain ⟨x, b, hx, e1, e2, e3, _⟩ := (hr.credits_iff _ _).mp hcv
+    have hrec : s.txrecs.find? ⟨op.hash, blk⟩ = some x := by
+      have := (hr.txrecs_iff ⟨x.hash, b.block⟩ x).mpr ⟨b, hx, rfl⟩
+      simp only at e1 e2
+      rw [e1, e2]; exact this
+    unfold fetchMinedCredit
+    simp only [Bool.not_true, Bool.false_and, Bool.false_eq_true, if_false, hrec]
+    simp only at e3
+    rw [e3]; rfl
+  have hB : ∀ e ∈ s.unminedCredits, fetchUnminedCredit s now true true false e = .ok (some ⟨e.1, none, 0, false⟩) := by
+    rintro ⟨op, uc⟩ he
+    have hf := find?_of_mem _ hg.wf2.wf.nodupUC he
+    obtain ⟨w, hw, h1, h2, _⟩ := (hr.ucredits_iff _ _).mp hf
+    have hrec : s.unmined.find? op.hash = some w := (hr.unmined_iff _ _).mpr ⟨hw, h1⟩
+    unfold fetchUnminedCredit
+    simp only [Bool.not_true, Bool.false_and, Bool.false_eq_true, if_false, hrec, h2]
+    rfl
+  refine ⟨(s.unspent.map fun e => (some ⟨e.1, none, 0, false⟩ : Option Credit)).filterMap id ++
+    (s.unminedCredits.map fun e => (some ⟨e.1, none, 0, false⟩ : Option Credit)).filterMap id, ?_, ?_⟩
+  · unfold outputsToWatch fetchCredits
+    rw [mapM_eq_map_of_forall _ _ _ hA, mapM_eq_map_of_forall _ _ _ hB]
+    rfl
+  · rw [List.map_append]
+    have e1 : ((s.unspent.map fun e => (some ⟨e.1, none, 0, false⟩ : Option Credit)).filterMap id).map (·.op) =
+        s.unspent.map (·.1) := by
+      rw [List.filterMap_map, List.map_filterMap]
+      induction s.unspent with
+      | nil => rfl
+      | cons a t ih => simp [List.filterMap_cons, ih]
+    have e2 : ((s.unminedCredits.map fun e => (some ⟨e.1, none, 0, false⟩ : Option Credit)).filterMap id).map (·.op) =
+        s.unminedCredits.map (·.1) := by
+      rw [List.filterMap_map, List.map_filterMap]
+      induction s.unminedCredits with
+      | nil => rfl
+      | cons a t ih => simp [List.filterMap_cons, ih]
+    rw [e1, e2]
+    unfold watchSet known
+    rw [List.flatMap_append, List.flatMap_map, List.flatMap_map]
+    apply List.Perm.append
+    · refine (hpu.map _).trans ?_
+      unfold expUnspent expCredits
+      rw [List.map_filterMap, List.filterMap_flatMap]
+      apply List.Perm.of_eq
+      apply flatMap_congr'
+      intro p _
+      unfold expCreditsOf
+      rw [List.filterMap_filterMap]
+      apply filterMap_congr'
+      rintro ⟨i, v⟩ _
+      cases hlk : lookup L.credit ⟨p.1.hash, i⟩ with
+      | none => simp [credited, hlk]
+      | some chg =>
+        simp only [hlk, Option.bind_some, credited, Option.isSome_some, Bool.true_and, ← spenderOf_isSome]
+        cases spenderOf L ⟨p.1.hash, i⟩ <;> simp [CredKey.outPoint]
+    · refine (hpc.map _).trans ?_
+      unfold expUnminedCredits
+      rw [List.map_flatMap]
+      apply List.Perm.of_eq
+      apply flatMap_congr'
+      intro t ht
+      rw [List.map_filterMap]
+      apply filterMap_congr'
+      rintro ⟨i, v⟩ _
+      have hsc : spentConfirmed L ⟨t.hash, i⟩ = false := by
+        rw [spentConfirmed_false_iff]
+        intro p hp hin
+        obtain ⟨b, hb, _⟩ := hl.parents p hp _ hin _ (known_of_pool ht) rfl
+        cases hb
+      cases hlk : lookup L.credit ⟨t.hash, i⟩ with
+      | none => simp [credited, hlk]
+      | some chg => simp [credited, hlk, hsc]
+
 end TxStore
